@@ -36,7 +36,7 @@ LEVEL_TEXT = ("Generated doctests (run from a bare docstring and from a module f
               "event loop is running and none created by the run is left unclosed, the cwd is unchanged. The same snapshot is "
               "taken around utils.import_module_from_path for modules that import cleanly, raise, import a sibling or sit "
               "three packages deep, or themselves add an entry to sys.path (before failing or not: the temporary directory must be gone and every earlier entry in place), with index 0 and -1. Randomised exploration of a finite product with shrinking.")
-LEVEL_ADDED = ('In a third of the cases the same DocTest object is run a second time under another sys.stdout and the snapshot is taken around that run too.')
+LEVEL_ADDED = ("In a third of the cases the same DocTest object is run a second time under another sys.stdout and the snapshot is taken around that run too. Imports also cover modules inside a zip archive (<archive>.zip/<module>.py, importing cleanly or raising), the archive being an entry of the caller's sys.path or not.")
 LEVEL_NOTE = ("Trusted: the snapshot comparison; the snapshot is taken inside the Hypothesis example, immediately before the call. "
               "Bodies that replace sys.stderr or edit sys.path themselves are not generated (nothing in xdoctest claims to undo "
               "them), but both are still compared after every generated body.")
